@@ -140,7 +140,9 @@ func runPairs(r *ev.Run, jobs []pairJob, si, sn, bound int) {
 		a, b := j.g.Acts[j.a], j.g.Acts[j.b]
 		pairName := j.g.Name + ":" + a.Name + "||" + b.Name
 		var env any
-		e := &vsched.Explorer{Bound: bound, MaxExecs: 20000, Setup: func() {
+		// groups that start real service loops have far too many free switches for preemption bounding:
+		// they are explored with deviation bounding (every departure from the canonical choice costs)
+		e := &vsched.Explorer{Bound: bound, AllDeviationsCost: j.g.Started != nil, MaxExecs: 20000, Stop: func() bool { return r.Expired("pair " + pairName) }, Setup: func() {
 			env = j.g.Setup()
 			if j.g.Started == nil {
 				vsched.Go(a.Name, func() { a.Run(env) })
